@@ -482,6 +482,8 @@ def run(ctx):
 
 
 SELFTEST = [
+    ('psd-test-with-default-tolerance', 'pyerrors/covobs.py', '            if ev < 0:', '            if ev < 0 and not np.isclose(ev, 0.0):', 'C04-G1'),
+    ('benign-psd-test-explicit-atol', 'pyerrors/covobs.py', '            if ev < 0:', '            if ev < 0 and not np.isclose(ev, 0.0, rtol=0.0, atol=0.0):', 'BENIGN'),
     ('covobs-early-return', 'pyerrors/covobs.py', '        for i in range(self.N):\n            for j in range(i):', '        if self.N == 1:\n            return\n        for i in range(self.N):\n            for j in range(i):', 'C04-D3'),
     ('definiteness-only-for-matrices', 'pyerrors/covobs.py', "        evals = np.linalg.eigvalsh(self._cov)\n        for ev in evals:\n            if ev < 0:\n                raise Exception('Covariance matrix is not positive-semidefinite!')", "        if np.array(cov).ndim == 2:\n            evals = np.linalg.eigvalsh(self._cov)\n            for ev in evals:\n                if ev < 0:\n                    raise Exception('Covariance matrix is not positive-semidefinite!')", 'C04-D3'),
     ('fix-reverted-descending-range', 'pyerrors/obs.py', "                    if idx.step < 0:\n                        raise ValueError(\"Unsorted idx for idl[%s]\" % (name))\n", "", 'C04-D3'),
